@@ -97,6 +97,8 @@ func main() {
 		"condition-shape": {"AND", "OR", "has-non-key-atom", "!=-with-second-key-column"},
 		"time-bounds":     {"none", "lower", "upper", "both", "on-primary-key-time-column"},
 		"null-keys":       {"present"},
+		"directed":        {"one-fragment-per-key-layout-with->8-distinct-keys"},
+		"mode":            {"directed"},
 		"last-fragment":   {"short", "full"},
 		"boundary":        {"literal-equals-a-key-stored-in-the-index", "same-key-tuple-on-both-sides-of-a-fragment-boundary"},
 	}
